@@ -106,7 +106,7 @@ def h2(ctx):
 @rule("H3", doc="final_subst: slots not covered by the pattern's slot map get Slot::fresh()")
 def h3(ctx):
     crate = ctx.lib()
-    b = fn(crate, "final_subst", "rewrite/ematch.rs")
+    b = mir.inline_view(crate, fn(crate, "final_subst", "rewrite/ematch.rs"))      # the completion loop may live in a shared helper
     ins = [c for c in b.calls if c.callee and c.callee.name == "insert" and "SlotMap" in (c.callee.impl_self or "")]
     ok = False
     for c in ins:
@@ -415,7 +415,7 @@ def h10(ctx):
         ctx.check(ok, "completion-is-fresh:" + C.fkey(root), "%s completes a slot map with Slot::fresh()" % C.short(root.id),
                   "%s completes a slot map for an uncovered slot with %s instead of Slot::fresh(): the invented name can coincide with a name that is already in use (a slot of the class, a slot the rule's right-hand side introduces, a user name) — capture / a spurious redundancy, and the result depends on how names are spelled" % (C.short(root.id), role_str(sv)[:60]),
                   where_of(b, c.bb))
-    ctx.floor("slot-map completion sites", len(sites), 2)
+    ctx.floor("slot-map completion sites", len(sites), 1)
 
 
 RULES.append(h10)
